@@ -484,8 +484,26 @@ func (p *Prog) CalleeFunc(info *types.Info, call *ast.CallExpr) *types.Func {
 }
 
 // SelField resolves a selector expression to the struct field it denotes (nil otherwise).
+// ResolveLocal, when set (by the rules package), maps an identifier that names a local
+// variable with exactly one definition to that defining expression; SelField follows it, so
+// that `x := o.f; use(x)` is recognised like `use(o.f)`. A variable that is assigned a second
+// time is never resolved.
+var ResolveLocal func(info *types.Info, id *ast.Ident) ast.Expr
+
 func SelField(info *types.Info, e ast.Expr) *types.Var {
-	sel, ok := ast.Unparen(e).(*ast.SelectorExpr)
+	e = ast.Unparen(e)
+	for i := 0; i < 3; i++ {
+		id, isID := e.(*ast.Ident)
+		if !isID || ResolveLocal == nil {
+			break
+		}
+		def := ResolveLocal(info, id)
+		if def == nil {
+			break
+		}
+		e = ast.Unparen(def)
+	}
+	sel, ok := e.(*ast.SelectorExpr)
 	if !ok {
 		return nil
 	}
